@@ -37,6 +37,28 @@ STRATA = {
     "molecules_small": (6000, 120000),
     "molecules_large": (96, 1500),
 }
+# functions that must leave their arguments untouched (vf.core.PurityMonitor; '!' = the object itself is watched too)
+PURE = [
+    "biotite.structure.residues:get_residue_starts",
+    "biotite.structure.residues:get_residue_starts_for",
+    "biotite.structure.residues:get_residue_masks",
+    "biotite.structure.residues:get_residue_positions",
+    "biotite.structure.residues:apply_residue_wise",
+    "biotite.structure.residues:spread_residue_wise",
+    "biotite.structure.residues:get_residues",
+    "biotite.structure.residues:get_residue_count",
+    "biotite.structure.chains:get_chain_starts",
+    "biotite.structure.chains:get_chain_starts_for",
+    "biotite.structure.chains:get_chain_masks",
+    "biotite.structure.chains:get_chain_positions",
+    "biotite.structure.chains:apply_chain_wise",
+    "biotite.structure.chains:spread_chain_wise",
+    "biotite.structure.chains:get_chains",
+    "biotite.structure.chains:get_chain_count",
+    "biotite.structure.molecules:get_molecule_indices",
+    "biotite.structure.molecules:get_molecule_masks",
+    "biotite.structure.bonds:find_connected",
+]
 REQUIRED_ORACLES = [
     "starts_vs_recomputation",
     "masks_vs_recomputation",
